@@ -120,7 +120,7 @@ ReturnStep == /\ pc = "return" /\ ret' = Return(acc, req) /\ acc' = Empty /\ pc'
 Next == Extend \/ Submit \/ Normalise \/ Group \/ ReadFile \/ AppendStep \/ ReorderStep \/ ReturnStep
 
 (* ------------------------------ properties ---------------------------------- *)
-ASSUME TreeWellFormed /\ LayoutWellFormed
+ASSUME TreeWellFormed /\ LayoutWellFormed /\ OrderRelationsCovered
 Done == pc = "done"
 TypeOK == /\ pc \in {"build", "file", "call", "group", "read", "append", "reorder", "return", "done", "appended"}
           /\ ki \in 0..(Len(Tree) + 1)
